@@ -9,7 +9,8 @@ import assemble as asm
 from contracts import load_all
 
 VERIF = asm.VERIF
-BUILD = os.path.join(VERIF, 'build', 'run')
+# (checks on a scratch copy of the sources -- bin/seed-matrix -- get their own scratch directory, so they can run concurrently)
+BUILD = os.path.join(VERIF, 'build', 'run' if os.path.realpath(asm.REPO) == '/repo' else 'run-' + os.path.basename(os.path.realpath(asm.REPO)))
 
 VERIFICATION_MSG = re.compile(
     r'^(postcondition not satisfied|precondition not satisfied|assertion failed|invariant not satisfied'
